@@ -3,7 +3,10 @@
 Proof: coq/Properties_C07.v.
 Tie:   for generated container documents: the document itself (must parse to its value), every
        proper prefix, one-unit suffixes over a 20-symbol alphabet, every closing bracket swapped or
-       removed, every separator blanked -- all of the latter must give Undefined."""
+       removed, every separator blanked -- all of the latter must give Undefined.
+       D92: texts whose strings hold a LONE high surrogate escape followed by 0..8 ordinary units, with later
+       strings that begin with ] } , : or an escaped quote: the text and ALL its proper prefixes must give
+       Undefined (before the repair a proper prefix such as ["\\uD800abcde","] was accepted)."""
 from vlib import fmt_list
 from props import jsoncommon as jc
 
@@ -22,6 +25,9 @@ def gen(rng, tier, boost):
         for c, tag in jc.damaged_cases(rng, w, out, full=(tier != "quick" or len(out.u) <= 80)):
             cases.append(c)
             dist[tag] += 1
+    lone = jc.lone_surrogate_cases(rng, (lambda r: [r.randrange(4)]) if tier == "quick" else (lambda r: range(4)), "X", full=(tier != "quick"))
+    cases.extend(lone)
+    dist["lone_surrogate"] = len(lone)
     nh = (1500 if tier == "quick" else 30000) * boost
     for _ in range(nh):
         cases.append(jc.h_case(rng, rng.randrange(4)))
@@ -31,8 +37,8 @@ def gen(rng, tier, boost):
 
 def check(tier):
     return jc.run_check(PROP, tier, gen, "Properties_C07.v",
-                        "a damaged document (proper prefix, trailing non-whitespace unit, closing bracket swapped/removed, separator blanked) gives Undefined; the intact document gives its value",
-                        "generated container documents (<= 200 units, nesting <= 8) with all their proper prefixes, 2x20 one-unit suffixes, bracket and separator damage; four widths; non-trivial = distinct texts")
+                        "a damaged document (proper prefix, trailing non-whitespace unit, closing bracket swapped/removed, separator blanked) gives Undefined; the intact document gives its value; a text with an unpaired high surrogate escape and every proper prefix of it give Undefined (D92)",
+                        "generated container documents (<= 200 units, nesting <= 8) with all their proper prefixes, 2x20 one-unit suffixes, bracket and separator damage; texts with a lone high surrogate escape (0..8 ordinary units behind it, later strings beginning with ] } , : or an escaped quote) with all their prefixes; four widths; non-trivial = distinct texts")
 
 
 def replay(path):
